@@ -225,6 +225,7 @@ class screen:
 
         if isinstance(ch, bytes):
             ch = self._decode(ch)
+        ch = ch[0]
 
         r = constrain (r, 1, self.rows)
         c = constrain (c, 1, self.cols)
